@@ -22,7 +22,9 @@ RULE = ('every command list of length 0-3 (thorough 0-4) over {ok, exit 1, exit 
         'Scheduler.schedule() with one worker under a watchdog. Oracle: DONE iff every command ran and exited 0; nothing runs after the '
         'first failure (markers); a command that cannot start gives a FAILED task and a normal return of schedule(); return_codes = codes '
         'of the commands run; stdout file = concatenated oK, stderr file = the eK in order (echoed command lines ignored); invalid names give FAILED; '
-        'two tasks never share a directory; non-trivial = lists with at least one failing command')
+        'two tasks never share a directory; (code tasks) CheckoutTask and BuildTask (0-3 targets) with a stand-in git / cmake whose n-th '
+        'invocation ends 0 / 1 / 3 / SIGTERM as planned (all plans up to 4 invocations) or does not exist: DONE iff every invocation made exited '
+        '0, none made after the first failure, log holds the output of the invocations in order; non-trivial = lists with at least one failing command')
 ASSUMPTIONS = ['/bin/sh is available; exit statuses as returned by subprocess.call (negative = signal)',
                'one worker thread, default schedule (the interleavings of the scheduler are C01-C03\'s business)',
                'small-scope: <= 3 commands per task']
